@@ -78,7 +78,10 @@ func (h *Home) NewAgent(reqID string, d *dag.DAG, opts *agent.Options) *agent.Ag
 		opts = &agent.Options{}
 	}
 	logFile := filepath.Join(h.Logs, "agent_"+d.Name+"."+reqID+".log")
-	return agent.New(reqID, d, sim.Quiet, h.Logs, logFile, h.Cli, h.DS, opts)
+	// every run is its own process in production: it gets its own instance of
+	// the stores (the history store keeps the open run's writer in the instance)
+	ds := h.NewDataStores()
+	return agent.New(reqID, d, sim.Quiet, h.Logs, logFile, client.New(ds, h.Executable, h.Dir, sim.Quiet), ds, opts)
 }
 
 // Start loads the file with the parameter override (as `start -p` does after
